@@ -130,7 +130,9 @@ def run(chk):
     ob_literals(chk, rules, gh)
     P = chk.program(('core', 'lib'))
     ob_parse_literal(chk, P)
+    ob_token_helpers(chk, P)
     ob_block_structure(chk, P, 3 if chk.tier == 'quick' else 4)
+    ob_stdlib_blocks(chk, P, 3 if chk.tier == 'quick' else 4)
     chk.trusted |= {'pest implements PEG semantics as documented', 'pegsmt encoder'}
 
 
@@ -138,7 +140,7 @@ def run(chk):
 import itertools
 from checks.pmodel import *
 
-BLOCK_ALPHABET = ['raw', 'expr', 'invalid', 'assign', 'if', 'endif', 'else', 'comment', 'endcomment', 'raw_tag', 'endraw', 'unknown']
+BLOCK_ALPHABET = ['raw', 'expr', 'invalid', 'assign', 'if', 'endif', 'endif_arg', 'else', 'comment', 'endcomment', 'endcomment_arg', 'raw_tag', 'endraw', 'endraw_arg', 'unknown']
 
 
 def ob_block_structure(chk, P, n):
@@ -168,4 +170,171 @@ def ob_block_structure(chk, P, n):
                         role = 'parse/panic/' + ('unclosed-inside-comment' if 'comment' in kinds else 'other') if kind == 'panic' else 'parse/accepts-unbalanced' if want == 'err' else 'parse/rejects-balanced'
                         ob.violation(role, f'{src!r}: {bad}', {'elements': list(kinds)}, sc, conf)
             ob.sample({'stream_len': ln})
+        ob.absorb(ex)
+
+
+# ============================================================================ token helpers: what a tag argument is accepted as
+def choice(ex, st, name, n):
+    """generator (st, k): a solver-chosen shape parameter 0..n-1, decided once per path"""
+    key = ('choice', name)
+    if key in st.env:
+        yield st, st.env[key]; return
+    v = z3.Int('shape_' + name)
+    for k in range(n):
+        s2 = st.clone(); s2.assume(v == k); s2.env[key] = k
+        yield s2, k
+
+
+def shape_pair(kind):
+    """Pair stub whose rule and children are shape parameters chosen by the solver:
+    token := FilterChain(Value(Literal | Variable(Identifier index{0..2})) filter{0..2}) | Range(Value Value) | Assign"""
+    def h(ctx, me, args, st):
+        m = method_of(ctx.callee)
+        ex = ctx.ex
+        if m == 'clone': return ret(st, me)
+        if m == 'as_str': return ret(st, st.ref(StrV('tok', 'str')))
+        if m == 'as_span': return ret(st, mk_span('tok', 0, 3))
+        def g():
+            if kind == 'token':
+                for s2, k in choice(ex, st, 'top', 3):
+                    rule = ['FilterChain', 'Range', 'Assign'][k]
+                    if m == 'as_rule': yield s2, 'ret', Adt('Rule', rule, [])
+                    elif m == 'into_inner':
+                        if rule == 'FilterChain':
+                            for s3, nf in choice(ex, s2, 'nfilters', 3):
+                                yield s3, 'ret', mk_list_iter([shape_pair('value')] + [shape_pair('filter')] * nf)
+                        elif rule == 'Range': yield s2, 'ret', mk_list_iter([shape_pair('value'), shape_pair('value')])
+                        else: yield s2, 'ret', mk_list_iter([])
+            elif kind == 'value':
+                if m == 'as_rule': yield st, 'ret', Adt('Rule', 'Value', [])
+                elif m == 'into_inner': yield st, 'ret', mk_list_iter([shape_pair('inner')])
+            elif kind == 'inner':
+                for s2, k in choice(ex, st, 'vkind', 2):
+                    if m == 'as_rule': yield s2, 'ret', Adt('Rule', ['Literal', 'Variable'][k], [])
+                    elif m == 'into_inner':
+                        if k == 0: yield s2, 'ret', mk_list_iter([shape_pair('leaf')])
+                        else:
+                            for s3, ni in choice(ex, s2, 'nindexes', 3):
+                                yield s3, 'ret', mk_list_iter([shape_pair('leaf')] + [shape_pair('value')] * ni)
+            else:
+                if m == 'as_rule': yield st, 'ret', Adt('Rule', 'Identifier' if kind == 'leaf' else 'Filter', [])
+                elif m == 'into_inner': yield st, 'ret', mk_list_iter([])
+        if m in ('as_rule', 'into_inner'): return g()
+        return None
+    return Abs('pair:' + kind, h, ('shape', kind))
+
+
+TOKEN_HELPERS = {
+    # helper: (accepts(shape) , template that must be rejected when the helper accepts too much)
+    'expect_filter_chain': (lambda t: t['top'] == 0, None),
+    'expect_value': (lambda t: t['top'] == 0 and t['nfilters'] == 0, "{% for i in a | reverse %}{% endfor %}"),
+    'expect_variable': (lambda t: t['top'] == 0 and t['nfilters'] == 0 and t['vkind'] == 1, None),
+    'expect_identifier': (lambda t: t['top'] == 0 and t['nfilters'] == 0 and t['vkind'] == 1 and t['nindexes'] == 0, "{% capture a.b %}x{% endcapture %}"),
+    'expect_literal': (lambda t: t['top'] == 0 and t['nfilters'] == 0 and t['vkind'] == 0, "{% cycle a | upcase: 'x', 'y' %}"),
+    'expect_range': (lambda t: t['top'] == 1, None),
+}
+
+
+def ob_token_helpers(chk, P):
+    with chk.obligation('tokens/classification', 'TagToken::expect_* accept exactly the argument shapes they name: a value is a filter chain WITHOUT filters, a variable is such a value that is a variable, '
+                        'an identifier is a variable without indexes, a literal is a literal, a range is a range; everything else is handed back as a failed match (which tags turn into an error); no panic',
+                        {'token shapes': 'FilterChain(Value(Literal | Variable(Identifier, 0..2 indexes)), 0..2 filters) | Range | a symbol; shape parameters are solver-chosen',
+                         'helpers': ', '.join(TOKEN_HELPERS)}) as ob:
+        def stub_ok(tag):
+            return lambda ctx, args, st: ret(st, Opaque((tag,)))
+        stubs = [(r'^(?:parser::)?(?:parser::)?parse_value$', stub_ok('value'), 'stub:parse_value'), (r'^(?:parser::)?(?:parser::)?parse_variable_pair$', stub_ok('variable'), 'stub:parse_variable_pair'),
+                 (r'^(?:parser::)?(?:parser::)?parse_literal$', stub_ok('literal'), 'stub:parse_literal'),
+                 (r'^(?:parser::)?(?:parser::)?parse_filter_chain$', lambda ctx, args, st: ret(st, Ok(Opaque(('chain',)))), 'stub:parse_filter_chain')]
+        ex = Executor(P, models_with(stubs + parser_stubs())); ex.seed = chk.seed
+        ob.stubs += ['pest Pair stubs with solver-chosen shape', 'parse_value / parse_variable_pair / parse_literal / parse_filter_chain: opaque results (covered by parse_literal/integers and C04/C07 obligations)']
+        for helper, (accepts, tpl) in TOKEN_HELPERS.items():
+            fn = P.find_method('TagToken', helper, None, 'core')
+            st = State()
+            tok = Adt('TagToken', None, [shape_pair('token'), VecV([], 'Vec')], ['token', 'expected'])
+            argv = [tok] + ([st.ref(Opaque(('LANG',)))] if helper == 'expect_filter_chain' else [])
+            for s2, kind, val in ex.run(fn, argv, st):
+                ob.paths += 1; ob.reached()
+                m = ob.decide(ex, s2.conds, z3.BoolVal(True))
+                shape = {k[1]: v for k, v in s2.env.items() if isinstance(k, tuple) and k[0] == 'choice'}
+                t = {'top': shape.get('top', -1), 'nfilters': shape.get('nfilters', 0), 'vkind': shape.get('vkind', -1), 'nindexes': shape.get('nindexes', 0)}
+                bad = None
+                if kind == 'panic': bad = f'panics: {val}'
+                else:
+                    matched = val.variant == 'Matches'
+                    # parameters the helper never looked at are unconstrained: accepting is wrong if SOME completion of the shape must be refused
+                    unseen = [k for k in ('nfilters', 'vkind', 'nindexes') if k not in shape and t['top'] == 0]
+                    completions = [dict(t, **dict(zip(unseen, vals))) for vals in itertools.product(*[range(3 if u != 'vkind' else 2) for u in unseen])] if unseen else [t]
+                    if matched and not all(accepts(c) for c in completions): bad = f'accepts a token of shape {shape} (unexamined: {unseen})'
+                    elif not matched and all(accepts(c) for c in completions): bad = f'refuses a token of shape {shape}'
+                if bad:
+                    sc = {'kind': 'template', 'template': tpl or "{% for i in a | reverse %}{% endfor %}"}
+                    ob.violation(f'tokens/{helper}/' + ('panic' if kind == 'panic' else 'accepts-too-much' if 'accepts' in bad else 'refuses'), f'TagToken::{helper} {bad}', {'shape': shape}, sc,
+                                 lambda r: r.get('stage') != 'parse' or r.get('outcome') != 'err')
+            ob.sample({'helper': helper})
+        ob.absorb(ex)
+
+
+# ============================================================================ the real stdlib block parsers over element streams
+STDLIB_BLOCKS = [
+    # (tag name, struct, start-tag arguments, inner tags)
+    ('if', 'IfBlock', [('x', 'var')], [('else', []), ('elsif', [('y', 'var')])]),
+    ('unless', 'UnlessBlock', [('x', 'var')], [('else', [])]),
+    ('for', 'ForBlock', [('i', 'var'), ('in', 'var'), ('a', 'var')], [('else', [])]),
+    ('tablerow', 'TableRowBlock', [('i', 'var'), ('in', 'var'), ('a', 'var')], []),
+    ('case', 'CaseBlock', [('x', 'var')], [('when', [('1', 'lit')]), ('else', [])]),
+    ('capture', 'CaptureBlock', [('v', 'var')], []),
+    ('ifchanged', 'IfChangedBlock', [], []),
+]
+
+
+def blocks_reference(kinds, inner_names):
+    """mandatory outcomes for a stream that starts with the block's start tag: 'err' (must be rejected), 'ok' (must be accepted unless a stub rejects), None (either)"""
+    if any(k in ('invalid', 'unknown', 'end_arg') for k in kinds): return 'err'      # every element is parsed (no comment/raw here), so these always surface
+    depth = 0; closed_at = None
+    for i, k in enumerate(kinds):
+        if k == 'start': depth += 1
+        elif k == 'end':
+            if depth == 0: return 'err'                                              # stray end tag at top level: unknown tag
+            depth -= 1
+        elif k in inner_names and depth == 0: return 'err'                           # else/when/elsif outside a block: unknown tag
+    if depth != 0: return 'err'                                                      # unclosed block
+    if all(k in ('start', 'end', 'raw', 'assign') for k in kinds): return 'ok'
+    return None
+
+
+def ob_stdlib_blocks(chk, P, n):
+    with chk.obligation('parse/stdlib-blocks', 'the real parsers of if, unless, for, tablerow, case, capture and ifchanged (with the real TagBlock, TagTokenIter and TagToken code) never panic on any stream of elements '
+                        'following their start tag; an unclosed block, an end tag with arguments, a stray end/else/when/elsif tag, an unknown tag and an invalid token are errors; a block holding only text and tags, properly closed, parses',
+                        {'streams': f'start tag + every sequence of up to {n} elements over [raw, assign, invalid, unknown, start (nesting), end, end with arguments, the inner tags of the block] then end of input',
+                         'arguments': 'well-formed one-word arguments as the Pair trees pest builds for them'}) as ob:
+        def stub_ok(tag):
+            return lambda ctx, args, st: ret(st, Opaque((tag,)))
+        stubs = [(r'^(?:parser::)?(?:parser::)?parse_value$', stub_ok('value'), 'stub:parse_value'), (r'^(?:parser::)?(?:parser::)?parse_variable_pair$', stub_ok('variable'), 'stub:parse_variable_pair'),
+                 (r'^(?:parser::)?(?:parser::)?parse_literal$', stub_ok('literal'), 'stub:parse_literal')]
+        ex = Executor(P, models_with(stubs + parser_stubs() + registers_models())); ex.seed = chk.seed; ex.max_steps = 80000
+        ob.stubs += ['pest Pair/Span/Position stubs over element streams of the shape the grammar guarantees (E3)', 'parse_value / parse_variable_pair / parse_literal: opaque results', 'pest error construction: opaque error']
+        for name, struct, start_args, inner in STDLIB_BLOCKS:
+            elements = block_elements(name, start_args, inner)
+            inner_names = [i for i, _ in inner]
+            alphabet = ['raw', 'assign', 'invalid', 'unknown', 'start', 'end', 'end_arg'] + inner_names
+            for ln in range(0, n + 1):
+                for rest in itertools.product(alphabet, repeat=ln):
+                    kinds = ['start'] + list(rest)
+                    want = blocks_reference(kinds, inner_names)
+                    st = State()
+                    for s2, kind, val in run_parse2(ex, P, st, kinds, elements, name, struct):
+                        ob.paths += 1; ob.reached()
+                        bad = None
+                        if kind == 'panic': bad = f'panics: {val}'
+                        elif want == 'err' and val[0] != 'err': bad = 'accepted, expected an error'
+                        elif want == 'ok' and val[0] == 'err' and not s2.env.get('stub_failed'): bad = 'rejected although the block is well formed'
+                        if bad:
+                            src = ''.join(elements[k][1] for k in kinds).replace('{%', '{% ').replace('%}', ' %}')
+                            sc = {'kind': 'template', 'template': src}
+                            if kind == 'panic': conf = lambda r: r.get('outcome') in ('panic', 'crash')
+                            elif want == 'err': conf = lambda r: r.get('stage') != 'parse' or r.get('outcome') != 'err'
+                            else: conf = lambda r: r.get('stage') == 'parse'
+                            role = f'parse/{name}/' + ('panic' if kind == 'panic' else 'accepts-malformed' if want == 'err' else 'rejects-well-formed')
+                            ob.violation(role, f'{src!r}: {bad}', {'elements': kinds}, sc, conf)
+            ob.sample({'block': name})
         ob.absorb(ex)
